@@ -344,12 +344,7 @@ fn sub_bulk(input: &[u8], st: &mut Stats) -> R {
         gen.track(&p2);
         prelude.push(p2);
     }
-    let n = match cs.below(4) {
-        0 => 65_530 + cs.below(16),
-        1 => 65_535 + cs.below(4),
-        2 => 131_066 + cs.below(12),
-        _ => 65_537 + cs.below(70_000),
-    };
+    let n = cs.big_count();
     let kind = cs.below(4);
     let base: u32 = [1_000_000u32, 30_000, 65_000][cs.below(3)];
     let t_any = gen.typed_ids.first().copied().unwrap_or(99);
